@@ -4,6 +4,8 @@ pub mod common;
 pub mod server_rig;
 pub mod wire;
 pub mod endpoints;
+pub mod client_rig;
+pub mod client_scen;
 pub mod c07_limits;
 pub mod c01_single;
 pub mod c02_batch;
@@ -12,6 +14,7 @@ pub mod c13_registry;
 pub mod c14_host_filter;
 pub mod c15_wire_types;
 pub mod c16_params_seq;
+pub mod c17_rpc_macro;
 pub mod c20_params_builder;
 
 /// a string whose JSON serialisation (quotes included) is exactly `n` bytes (n >= 2); kind: ascii | esc | multi
